@@ -247,7 +247,9 @@ func reexec(b []byte, w *writer) {
 		if err := json.Unmarshal(b, &e); err != nil {
 			fatal(err)
 		}
-		execSweep(&e)
+		old := e.Probes
+		execSweep(r, &e)
+		e.Probes = mergeProbes(e.Probes, old)
 		w.emit(&e)
 	case "TreeOp":
 		var e TreeEv
